@@ -6,6 +6,7 @@ import (
 	"github.com/bluenviron/mediacommon/v2/pkg/formats/fmp4"
 	"math"
 	"runtime"
+	"strings"
 	"sync/atomic"
 )
 
@@ -15,6 +16,8 @@ import (
 //
 //	C02 (mode "init"): the init section fetched after a playlist is never older than the parameters the newest
 //	     segment listed in that playlist was encoded with (the init only ever moves forward, at the cut itself).
+//	C16 (mode "index"): every reader requests the multivariant playlist with a query of its own; every URI in the
+//	     answer carries exactly that query.
 //	C05 (mode "parts"): Low-Latency, mostly Directory storage; every part a playlist lists is fetched at once: status
 //	     200 and the same bytes as before, unless its segment has left the window meanwhile.
 //	C03 (mode "target"): every playlist satisfies TARGETDURATION >= round(EXTINF) for every listed segment, and
@@ -30,6 +33,9 @@ func scMuxBurst(mode string) Scenario {
 			g.h26xOnly = true
 		} else if mode == "parts" {
 			g.variants = []string{"ll"}
+			g.forceVideo = T.Chance(1, 2)
+		} else if mode == "index" {
+			g.paramChanges = T.Chance(1, 3)
 			g.forceVideo = T.Chance(1, 2)
 		} else {
 			g.variants = allVariants
@@ -75,6 +81,8 @@ func scMuxBurst(mode string) Scenario {
 		partSeen := make([]map[string][]byte, nReaders)
 		partBad := make([]string, nReaders)
 		partOK := make([]int, nReaders)
+		idxBad := make([]string, nReaders)
+		idxOK := make([]int, nReaders)
 		for i := range partSeen {
 			partSeen[i] = map[string][]byte{}
 		}
@@ -98,6 +106,43 @@ func scMuxBurst(mode string) Scenario {
 			i := i
 			t.StartNoWait(func() {
 				for !done.Load() && len(results[i]) < 4000 {
+					if mode == "index" {
+						// the multivariant playlist, each reader with a query of its own: the muxer repeats the query of
+						// the request in every URI it writes, and only that one
+						own := fmt.Sprintf("tok=r%d", i)
+						ir := w.directGet("index.m3u8?" + own)
+						if ir.effStatus() != 200 || len(ir.body) == 0 {
+							continue
+						}
+						idxOK[i]++
+						mp, err := parseMultivariant(ir.body)
+						if err != nil {
+							if idxBad[i] == "" {
+								idxBad[i] = fmt.Sprintf("multivariant playlist does not parse: %v", err)
+							}
+							continue
+						}
+						var uris []string
+						for _, v := range mp.Variants {
+							uris = append(uris, v.URI)
+						}
+						for _, rd := range mp.Renditions {
+							if rd.HasURI {
+								uris = append(uris, rd.URI)
+							}
+						}
+						for _, u := range uris {
+							q := ""
+							if k := strings.IndexByte(u, '?'); k >= 0 {
+								q = u[k+1:]
+							}
+							if q != own && idxBad[i] == "" {
+								idxBad[i] = fmt.Sprintf("index.m3u8?%s lists %s: the query of another request (or none)", own, u)
+							}
+						}
+						results[i] = append(results[i], triple{})
+						continue
+					}
 					resp := w.directGet(lead)
 					if resp.effStatus() != 200 || len(resp.body) == 0 {
 						continue
@@ -121,6 +166,16 @@ func scMuxBurst(mode string) Scenario {
 						}
 						for _, p := range pl.TrailingParts {
 							listed = append(listed, lp{stripQuery(p.URI), pl.MediaSequence + len(pl.Segments)})
+						}
+						// the hinted part (the request is held until it is complete): what it returns is what the URI
+						// returns from then on
+						if pl.HasPreload && len(results[i])%3 == 0 {
+							if hr := w.directGet(stripQuery(pl.PreloadHint)); hr.effStatus() == 200 && len(hr.body) > 0 {
+								if old, ok := partSeen[i][stripQuery(pl.PreloadHint)]; ok && !bytes.Equal(old, hr.body) && partBad[i] == "" {
+									partBad[i] = fmt.Sprintf("preload hint %s returned %d bytes, the same URI returned %d other bytes before", pl.PreloadHint, len(hr.body), len(old))
+								}
+								partSeen[i][stripQuery(pl.PreloadHint)] = hr.body
+							}
 						}
 						for _, p := range listed {
 							pr := w.directGet(p.uri)
@@ -178,6 +233,15 @@ func scMuxBurst(mode string) Scenario {
 			}
 			epochOf[u.idx] = len(epochs) - 1
 		}
+		for i := range idxBad {
+			if idxBad[i] != "" {
+				r.Fail("uris", "foreign-query", "reader %d: %s", i, idxBad[i])
+				break
+			}
+			if idxOK[i] > 0 {
+				r.Probe("burst-multivariant-checked")
+			}
+		}
 		for i := range partBad {
 			if partBad[i] != "" {
 				r.Fail("fetch", "listed-part-under-load", "reader %d: %s", i, partBad[i])
@@ -190,7 +254,7 @@ func scMuxBurst(mode string) Scenario {
 		for i, rs := range results {
 			prevTD := -1
 			for _, tr := range rs {
-				if mode == "target" {
+				if mode == "target" && tr.pl != nil {
 					for k, sg := range tr.pl.Segments {
 						if sg.Gap {
 							continue
